@@ -175,7 +175,23 @@ def main(argv):
     except (Machinery, tlc.MachineryError) as e:
       print('MACHINERY-FAILURE property=%s %s' % (pid, e))
       return 2
-    except Exception:
+    except Exception as e:
       traceback.print_exc()
+      # An exception raised INSIDE carbon (innermost frames under <repo>/lib/carbon) while the check drove
+      # it through a scenario of this property is the code failing where the property demands an outcome:
+      # report it as a violation (the harness never relies on carbon raising).  Anything else is ours.
+      tb = traceback.extract_tb(e.__traceback__)
+      repo_lib = os.path.join(os.environ.get('VERIF_REPO', '/repo'), 'lib', 'carbon') + os.sep
+      if tb and os.path.realpath(tb[-1].filename).startswith(os.path.realpath(repo_lib) + os.sep) or \
+         (tb and tb[-1].filename.startswith(repo_lib)):
+        where = '%s:%d in %s' % (os.path.relpath(tb[-1].filename, os.path.dirname(os.path.dirname(repo_lib.rstrip(os.sep)))), tb[-1].lineno, tb[-1].name)
+        try:
+          ctx.violation('carbon raised %s (%s) at %s while the check exercised it; the scenario could not be completed'
+                        % (type(e).__name__, str(e)[:120], where),
+                        dict(exception=repr(e), where=where, stack=[('%s:%d %s' % (f.filename, f.lineno, f.name)) for f in tb[-8:]]),
+                        signature='escaped:' + type(e).__name__)
+          return ctx.finish()
+        except Exception:
+          traceback.print_exc()
       print('MACHINERY-FAILURE property=%s unexpected exception' % pid)
       return 2
